@@ -2365,7 +2365,19 @@ class Kconfig(object):
         # A separate helper function is neater than complicating write_config()
         # by passing a flag to it, plus we only need to look at symbols here.
 
-        self._write_if_changed(os.path.join(path, "auto.conf"), self._old_vals_contents())
+        filename = os.path.join(path, "auto.conf")
+        contents = self._old_vals_contents()
+        if self._contents_eq(filename, contents):
+            return
+
+        # Write to a temporary file in the same directory and rename it over
+        # auto.conf. Truncating auto.conf in place would make an interrupted
+        # run lose the recorded old values, so that a later run could miss a
+        # change (e.g. y -> n looks like "was missing, is n" => no change).
+        tmp_filename = filename + ".tmp"
+        with open(tmp_filename, "w", encoding=self._encoding) as f:
+            f.write(contents)
+        os.replace(tmp_filename, filename)
 
     def _old_vals_contents(self):
         # _write_old_vals() helper. Returns the contents to write as a string.
